@@ -241,6 +241,7 @@ def run (case impl : String) : String :=
   match words case with
   | "pb" :: _ => ScyllaVerif.Drive.C14Session.run case impl
   | "cs" :: _ => ScyllaVerif.Drive.C14Session.run case impl
+  | "cm" :: _ => ScyllaVerif.Drive.C14Session.run case impl
   | ["hist", nodes, stmts, steps] =>
     match (stmts.splitOn ",").mapM parseStmt with
     | none => "bad-case"
